@@ -896,6 +896,7 @@ def run(tier):
     refused = 0
     ksamples = []
     kviol = 0
+    kernel_over_budget = []
     for r in results:
         key = r["request"]["assignment"] + " | " + ",".join(f"{k}:{v}" for k, v in r["request"]["formats"].items())
         for k in kagg:
@@ -907,7 +908,10 @@ def run(tier):
         if r["status"] == "harness-error":
             rep.harness_error(f"{key}: {r.get('error', '')[:300]}")
         elif r["status"] == "budget":
-            rep.harness_error(f"{key}: budget")
+            if tier == "quick":
+                rep.harness_error(f"{key}: budget")
+            else:
+                kernel_over_budget.append(key)
         elif r["status"] == "violation":
             kviol += 1
             if kviol > keval.MAX_CONFIRM:
@@ -963,6 +967,7 @@ def run(tier):
         "expression_trees": tree_stats, "statement_programs": stmt_stats,
         "kernels": {"requests": len(reqs), "generated": len(generated), "refused": refused, **kagg,
                     "solver_s": round(kagg["solver_s"], 2), "solver_counterexamples": kviol,
+                    "tasks": len(tasks), "tasks_completed": len(results), "over_budget": kernel_over_budget[:40],
                     "bounds": {"dense_dimension_max": D, "stored_entries_per_compressed_level": N}},
         "toolchain_checked": tc_checked, "identifier_obligations": ident,
         "unconfirmed_overflow_only_candidates": unconfirmed_overflow_only,
